@@ -107,10 +107,9 @@ Definition w_mismatch_start :=
 Definition w_replace_end :=
   mkCall FReplace 0 0 P0 (SList [1;2;3]) (SList [9;9]) None (Some 3%nat) false None None None TDefault CAbsent false BAdd None 1 false.
 Definition w_fill_end := mk FFill 0 0 P0 (SList [1;2;3]) SNil None (Some 3%nat) None TDefault CAbsent false.
-(* (subseq nil 0), (every (lambda (x) (eql 0 x)) nil), (mapcar '1+ nil), (subsetp nil '(1)): type-error *)
+(* (subseq nil 0), (every (lambda (x) (eql 0 x)) nil), (subsetp nil '(1)): type-error *)
 Definition w_subseq_nil := mk FSubseq 0 0 P0 SNil SNil (Some 0%nat) None None TDefault CAbsent false.
 Definition w_every_nil := mk FEvery 0 0 P0 SNil SNil None None None TDefault CAbsent false.
-Definition w_mapcar_nil := mk FMapcar 0 0 P0 SNil SNil None None (Some KSucc) TDefault CAbsent false.
 Definition w_subsetp_nil := mk FSubsetp 0 0 P0 SNil (SList [1]) None None None TDefault CAbsent false.
 (* (reduce '+ nil), (map 'list '1+ nil), (merge 'list nil '(1) '<): Go run-time panic *)
 Definition w_reduce_nil := mk FReduce 0 0 P0 SNil SNil None None None TDefault CAbsent false.
@@ -135,7 +134,7 @@ Definition w_find_if_not := mk FFindIfNot 0 0 P0 (SVec [0;1;2]) SNil None None N
 Definition refutation_witnesses : list call :=
   [w_remove_if_not; w_find_if_not; w_test_not; w_subst_test_not; w_setdiff_test_not; w_count_nil; w_subst_count; w_subst_count0; w_subst_count_neg;
    w_count_utf8; w_assoc_nil; w_assoc_order; w_search_from_end; w_search_empty; w_mismatch_from_end; w_mismatch_start;
-   w_replace_end; w_fill_end; w_subseq_nil; w_every_nil; w_mapcar_nil; w_subsetp_nil; w_reduce_nil; w_map_nil; w_merge_nil;
+   w_replace_end; w_fill_end; w_subseq_nil; w_every_nil; w_subsetp_nil; w_reduce_nil; w_map_nil; w_merge_nil;
    w_merge_tie; w_some_value; w_reduce_empty; w_reduce_start; w_dups_ne; w_dups_from_end].
 
 Lemma all_refuted : forallb refutes refutation_witnesses = true.
@@ -254,7 +253,7 @@ Proof. vm_compute. split; reflexivity. Qed.
 Lemma replace_fill_end_refuted : refutes w_replace_end = true /\ refutes w_fill_end = true.
 Proof. vm_compute. split; reflexivity. Qed.
 Lemma nil_sequence_refuted :
-  refutes w_subseq_nil = true /\ refutes w_every_nil = true /\ refutes w_mapcar_nil = true /\ refutes w_subsetp_nil = true /\
+  refutes w_subseq_nil = true /\ refutes w_every_nil = true /\ refutes w_subsetp_nil = true /\
   refutes w_reduce_nil = true /\ refutes w_map_nil = true /\ refutes w_merge_nil = true.
 Proof. vm_compute. repeat split; reflexivity. Qed.
 Lemma merge_tie_refuted : refutes w_merge_tie = true.
